@@ -461,13 +461,25 @@ impl TdCase {
     /// A single-issuer ring of its own (the simulated kernel enforces IORING_SETUP_SINGLE_ISSUER for
     /// it): the Ring is polled once (this thread becomes the submitter) and dropped, then a regular
     /// `AsyncFd`, the last handle, is dropped on this thread (`same`) or on another one (`other`).
-    fn do_single_last_handle(&mut self, other_thread: bool) -> Vec<String> {
+    fn do_single_last_handle(&mut self, where_: &str) -> Vec<String> {
+        let other_thread = where_ == "other";
+        // `enabled-elsewhere`: the ring is built DISABLED on another thread and enabled on this one,
+        // which thereby becomes its submitter (IORING_REGISTER_ENABLE_RINGS); everything else
+        // happens on this thread, as in `same`
+        let elsewhere = where_ == "enabled-elsewhere";
         let pre = simk::drain_events();
         simk::purge_closed_except(self.rfd);
         let held_main = simk::hold_fd(self.rfd);
         let before: Vec<i32> = simk::with_sim(|s| s.rings.keys().copied().collect());
         simk::ENFORCE_SINGLE_ISSUER.store(true, std::sync::atomic::Ordering::SeqCst);
-        let built = Ring::config().with_submission_queue_size(4).single_issuer().build();
+        let built = if elsewhere {
+            std::thread::spawn(|| Ring::config().with_submission_queue_size(4).single_issuer().disable().build())
+                .join()
+                .unwrap_or_else(|_| Err(std::io::Error::other("builder thread panicked")))
+                .and_then(|mut r| r.enable().map(|()| r))
+        } else {
+            Ring::config().with_submission_queue_size(4).single_issuer().build()
+        };
         simk::ENFORCE_SINGLE_ISSUER.store(false, std::sync::atomic::Ordering::SeqCst);
         if held_main {
             simk::release_fd(self.rfd);
@@ -507,8 +519,14 @@ impl TdCase {
             unsafe { simk::raw_syscall(libc::SYS_close, r as i64, 0, 0, 0, 0, 0) };
         }
         if closes != 1 || open {
-            let sig = if other_thread { "C12/single-issuer-last-handle/other-thread" } else { "C12/single-issuer-last-handle/same-thread" };
-            self.fail(sig, format!("single-issuer ring: the AsyncFd dropped after the Ring ({}) was closed {closes} times, descriptor still open: {open}; {refused} io_uring_enter call(s) refused with EEXIST", if other_thread { "on another thread than the ring's submitter" } else { "on the submitter's thread" }));
+            let sig = if other_thread {
+                "C12/single-issuer-last-handle/other-thread"
+            } else if elsewhere {
+                "C12/single-issuer-last-handle/enabled-elsewhere"
+            } else {
+                "C12/single-issuer-last-handle/same-thread"
+            };
+            self.fail(sig, format!("single-issuer ring: the AsyncFd dropped after the Ring ({}) was closed {closes} times, descriptor still open: {open}; {refused} io_uring_enter call(s) refused with EEXIST", if other_thread { "on another thread than the ring's submitter" } else if elsewhere { "on the submitter's thread: the thread that enabled the ring, which another thread had built disabled" } else { "on the submitter's thread" }));
         }
         simk::with_sim(|sim| {
             let mut keep = pre;
@@ -516,7 +534,7 @@ impl TdCase {
             sim.events = keep;
         });
         simk::purge_closed_except(self.rfd); // the side ring is gone: the case's own ledger must not count its queue
-        self.feat(if other_thread { "single-last-handle/other" } else { "single-last-handle/same" });
+        self.feat(if other_thread { "single-last-handle/other" } else if elsewhere { "single-last-handle/enabled-elsewhere" } else { "single-last-handle/same" });
         vec![format!("single-last-handle closes={closes} open={} refused={refused}", u8::from(open))]
     }
 
@@ -1465,8 +1483,8 @@ impl TdCase {
                 out.push(format!("cqhead={head}"));
                 self.fx(&mut out);
             }
-            ["teardown", "single-last-handle", where_] if matches!(*where_, "same" | "other") => {
-                out = self.do_single_last_handle(*where_ == "other");
+            ["teardown", "single-last-handle", where_] if matches!(*where_, "same" | "other" | "enabled-elsewhere") => {
+                out = self.do_single_last_handle(where_);
             }
             ["teardown", "sqpoll-last-handle"] => {
                 out = self.do_sqpoll_last_handle();
@@ -1857,7 +1875,7 @@ impl Case for TdCase {
             return Some(format!("teardown disabled-drop {}", rng.range(1, 6)));
         }
         if rng.chance(1, 60) {
-            return Some(format!("teardown single-last-handle {}", if rng.chance(1, 2) { "same" } else { "other" }));
+            return Some(format!("teardown single-last-handle {}", rng.pick(&["same", "other", "enabled-elsewhere"])));
         }
         // malformed stream
         if rng.chance(1, 30) {
